@@ -291,6 +291,13 @@ func runtimeOverlay(out string, repl map[string]string) {
 //go:linkname verifSeed
 var verifSeed uint64
 
+// verifGoidFn returns the id of the calling goroutine (the simulator keys
+// per-goroutine bookkeeping on it; parsing runtime.Stack output is too slow for
+// a hook that runs at every lock operation).
+//
+//go:linkname verifGoidFn
+var verifGoidFn = func() uint64 { return getg().goid }
+
 func verifMix(x uint64) uint64 {
 	x += 0x9e3779b97f4a7c15
 	x = (x ^ (x >> 30)) * 0xbf58476d1ce4e5b9
